@@ -27,6 +27,10 @@ EXTRA.update({
  "C10-r4m2": ["C10"], "C11-r4m1": ["C11", "C14", "C05"], "C11-r4m2": ["C11", "C01"], "C13-r4m1": ["C13"], "C13-r4m2": ["C13"],
  "C14-r4m1": ["C14", "C02"], "C14-r4m2": ["C14"],
 })
+EXTRA.update({
+ "C01-r5m1": ["C01", "C05"], "C01-r5m2": ["C01"], "C02-r5m1": ["C02", "C13"], "C02-r5m2": ["C02", "C14"], "C05-r5m1": ["C05", "C13"], "C05-r5m2": ["C05", "C11"],
+ "C12-r5m1": ["C12", "C16"], "C12-r5m2": ["C12", "C14"], "C16-r5m1": ["C16"], "C16-r5m2": ["C16", "C13"], "C17-r5m1": ["C17"], "C17-r5m2": ["C17"],
+})
 PREFIX_PROP = {"d8b687c": ["C06"], "da7613f": ["C16"], "64a92d9": ["C02"], "2c87331": ["C13", "C02", "C12"], "06fc22c": ["C05", "C11"],
                "85dc330": ["C05", "C11"], "4c427cc": ["C13"], "a8065bf": ["C13"], "a4e97cf": ["C11"], "2aa0389": ["C04"],
                "9db7846": ["C17"], "23f20cf": ["C17"], "b18464c": ["C07"], "d06cb78": ["C10"], "796c1d9": ["C01", "C11"], "e184993": ["C10"]}
